@@ -695,7 +695,7 @@ func JudgeC04(c *Case, res *Result) []Finding {
 				add("truncator-unneeded", "truncator appended although no rune was cut and the text does not continue")
 			}
 		}
-		if li.isLast && c.TruncateAfter > 0 && c.Iterative && len(res.Lines) == c.TruncateAfter {
+		if li.isLast && c.TruncateAfter > 0 && len(res.Lines) == c.TruncateAfter {
 			// the countdown reached zero on this line: truncator iff runes cut or text continues
 			want := res.Truncated > 0 || c.TextContinues
 			if want != (li.trunc != nil) {
@@ -730,7 +730,10 @@ func JudgeC04(c *Case, res *Result) []Finding {
 		if need > fixed.I(li.maxWidth) {
 			// exemption: single unbreakable unit
 			first := x.nextPermitted(s, grapheme || c.Policy == 0)
-			if e > first {
+			// the single-unit exemption is for ordinary lines: on the truncated line a unit
+			// that does not fit beside the truncator is cut (the line then holds the
+			// truncator alone), whatever the break policy
+			if e > first || li.trunc != nil {
 				cls := "over-wide"
 				if li.trunc != nil {
 					cls = "over-wide-truncated-line"
